@@ -42,15 +42,36 @@ func externaliseContext(doc string, mode int) (out string, files map[string]stri
 	if !isCtx || len(ctx) == 0 {
 		return doc, nil, false
 	}
+	// @base has no effect when it comes from a referenced context: it stays inline
+	base, hasBase := ctx["@base"]
+	if hasBase {
+		rest := map[string]any{}
+		for k, x := range ctx {
+			if k != "@base" {
+				rest[k] = x
+			}
+		}
+		ctx = rest
+		if mode == 1 {
+			mode = 2
+		}
+	}
 	content, _ := json.Marshal(map[string]any{"@context": ctx})
 	path := filepath.Join(ctxDir(), "ctx-"+ev.Hash(string(content))+".jsonld")
 	switch mode {
 	case 1:
 		top["@context"] = path
 	case 2:
-		top["@context"] = []any{path, map[string]any{}}
+		inline := map[string]any{}
+		if hasBase {
+			inline["@base"] = base
+		}
+		top["@context"] = []any{path, inline}
 	default:
 		inline := map[string]any{"@import": path}
+		if hasBase {
+			inline["@base"] = base
+		}
 		keys := make([]string, 0, len(ctx))
 		for k := range ctx {
 			keys = append(keys, k)
